@@ -497,3 +497,26 @@ class multi_init(_Op):
         c.oblige("post", "fs", sym.same(Q["fs"], pre["fs"]))
         c.oblige("post", "initial-fs", sym.same(Q["_initial_fs"], pre["fs"]))
         inv_multi(c, post["self"], self.rls)
+
+
+# ----------------------------------------------------------------------------------------------------------------------
+# scipy's in-place keyword: detrend(overwrite_data=True) writes into the array it is given.  The verifier's detrend kernel is a pure
+# function of its argument (an in-place kernel is refused), so operation sequences that contain the keyword - as first operation, after a
+# rollback, on both setup kinds - are searched natively on every run (labelled bounded; found /repo 9277f10)
+# ----------------------------------------------------------------------------------------------------------------------
+
+@register
+class inplace_keyword(Contract):
+    qualname = SS + ".detrend_data"
+    props = ("C14",)
+    name = "scipy's in-place keyword (overwrite_data)"
+    bounded_only = True
+    callable_modular = False
+    generic_replay = False
+    bounded_reason = ("unsupported: scipy.signal.detrend(overwrite_data=True) may write into its argument; the verifier models the routine as a pure "
+                      "kernel and refuses the in-place form")
+    bounded_bound = ("every sequence of length <= 2 and 900 of length 3 over {3 decimations, 3 detrends (one with type='linear', overwrite_data=True), filter, "
+                     "rollback, add_algorithms} on a SingleSetup (1500 x 3) and a 2-dataset MultiSetup_PreGER: data / fs / dt / sample counts against scipy "
+                     "applied directly, the user's arrays and the stored initial copies compared bit for bit after every step")
+    bounded_driver = {"driver": "c14_sequences", "inputs": {"trials": 902, "trials_thorough": 902}}      # the number of sequences the driver enumerates
+
